@@ -13,7 +13,7 @@ META = {
                    'num_locals of the same function value, pushframe stores the current ip into the frame it leaves; popframe pops the frame, '
                    'truncates the stack to its base and restores ip/bp from the new last frame; exactly one result is pushed. 16-bit frame '
                    'arithmetic must be guarded.'
-                   " R12.5 the frame size packed into a function value counts every defined name. R12.6 names are looked up only in the current function's context and the global one.",
+                   " R12.5 the frame size packed into a function value counts every defined name. R12.6 names are looked up only in the current function's context and the global one. R12.7 the number of call frames is bounded by a test with an error edge. R12.8 the name lookup answers from the scope structure as it is now (a cache of answers is brought up to date when a function context is entered or left).",
     'not_decided': ['independence of activations as a run-time fact; results of deep recursion'],
 }
 
